@@ -110,3 +110,20 @@ Proof.
     vm_compute. repeat (first [left; reflexivity | right]). }
   destruct Hp as (p & Hp1 & Hp2). rewrite Hp1 in Hl. injection Hl as <-. exact Hp2.
 Qed.
+
+(* N-C08-3: main = [main()] compiles; the call carries Handle(0), the handle of main (function 0), and the
+   label table has no entry for it: the first function is compiled without a label *)
+Definition ex_call_main_module : module := Module [] [(s_main, fn0 [CCall s_main []])] [].
+Lemma ex_main_has_no_label :
+  spec_resolve (with_std std_module ex_call_main_module) [] [] s_main = SFound ([], s_main) /\
+  fn_position (with_std std_module ex_call_main_module) [] s_main 0 = Some 0%nat /\
+  exists B, compile ex_call_main_module default_options = COk B /\
+            In (IFunctionPointer (handle_from_u64 0) 0)
+               (match decode (p_bytecode B) with Some l => map snd l | None => [] end) /\
+            nm_find (handle_from_u64 0) (p_labels B) = None.
+Proof.
+  split; [vm_compute; reflexivity|]. split; [vm_compute; reflexivity|].
+  destruct (compile ex_call_main_module default_options) as [B| | |] eqn:E; try (vm_compute in E; discriminate).
+  exists B. split; [reflexivity|]. vm_compute in E. injection E as <-.
+  split; [vm_compute; repeat (first [left; reflexivity | right]) | vm_compute; reflexivity].
+Qed.
